@@ -30,7 +30,7 @@ OUT = os.path.join(VERIF, "out")
 
 VERIF_KINDS = [
     (r"postcondition not satisfied", "postcondition"),
-    (r"precondition not satisfied", "precondition"),
+    (r"precondition not satisfied|precondition not met", "precondition"),
     (r"assertion failed", "assertion"),
     (r"possible arithmetic underflow/overflow", "arith-overflow"),
     (r"possible bit shift underflow/overflow", "shift-overflow"),
@@ -184,6 +184,10 @@ def process_unit(unit, tier, seed):
             continue
         if kind == "ignore":
             continue
+        if kind is None and not d.get("code") and not vr.get("encountered-vir-error") and vr.get("errors", 0) > 0:
+            # vstd attaches its own wording to some preconditions (e.g. "precondition not met: index in bounds for this
+            # access"); rustc errors carry an error code and VIR (unsupported construct) errors set encountered-vir-error
+            kind = "precondition"
         if kind is None:
             frontend_errors.append(msg + " :: " + (d.get("rendered") or "")[:400])
             continue
